@@ -35,7 +35,7 @@ def run_config(torch, G, SpyLeaf, cfg):
                 return G.PredefinedGenerator(*[[float(gd.point_value(0, 0, i, j)) for i in range(cfg['n'])] for j in range(d)])
             return G.StaticGenerator(SpyLeaf(0, d, [cfg['n']], 'list1' if d == 1 else 'list'))
         under, twin = mk(), mk()
-    elif kind == 'fixed':
+    elif kind in ('fixed', 'raising'):
         under = SpyLeaf(0, d, [cfg['n']], cfg.get('form', 'list'))
     elif kind == 'varying':
         under = SpyLeaf(0, d, cfg['script'], cfg.get('form', 'list'))
@@ -63,11 +63,36 @@ def run_config(torch, G, SpyLeaf, cfg):
             raise RuntimeError('runaway: the batch generator keeps drawing / its source grows without bound')
         return x
     under.get_examples = guarded
+    interrupted = []
+    if kind == 'raising':
+        # the source raises INSTEAD of handing out a draw at the scheduled attempts (attempt 0 = the constructor's draw);
+        # the caller catches the exception and carries on calling
+        guarded_inner = under.get_examples
+        attempts = {'n': 0}
+        exc_type = KeyboardInterrupt if cfg.get('exc') == 'KeyboardInterrupt' else SourceError
+
+        def raising():
+            k = attempts['n']
+            attempts['n'] += 1
+            if k in cfg['raise_at']:
+                raise exc_type(f'scheduled failure of the source at attempt {k}')
+            return guarded_inner()
+        under.get_examples = raising
     out = {'draws': under._spy_log, 'batches': [], 'forms': [], 'error': None}
     try:
         bg = G.BatchGenerator(under, bsz)
-        for _ in range(calls):
+        for ci in range(calls):
             budget['draws'] = 0
+            if kind == 'raising':
+                try:
+                    x = bg.get_examples()
+                except (SourceError, KeyboardInterrupt):
+                    interrupted.append(ci)
+                    continue
+                form, cols = gd.to_cols(x, torch)
+                out['batches'].append(cols)
+                out['forms'].append(form)
+                continue
             form, cols = gd.to_cols(bg.get_examples(), torch)
             out['batches'].append(cols)
             out['forms'].append(form)
@@ -76,6 +101,7 @@ def run_config(torch, G, SpyLeaf, cfg):
     except Exception as e:            # canonicalised
         out['error'] = type(e).__name__
     out['taken'] = len(under._spy_log)
+    out['interrupted_calls'] = interrupted
     # non-interference: the batch generator must not modify what the source handed out, nor what it hands out later
     out['interference'] = gd.raw_mutated(under._spy_raw, torch)
     if out['interference'] is None and twin is not None and not out['error']:
@@ -86,6 +112,24 @@ def run_config(torch, G, SpyLeaf, cfg):
             out['interference'] = (f'the {kind} source returned {[len(c) for c in got[bad]]} values per dimension at its draw {bad + 1}; an identical '
                                    f'source that is not consumed by a BatchGenerator returns {[len(c) for c in want]}')
     return out
+
+
+class SourceError(Exception):
+    """an exception of the underlying generator that the caller of the batch generator catches"""
+
+
+def enumerate_raising():
+    """batch size > underlying size (several refills per call); the source fails at one or two scheduled attempts, i.e. during
+    the 1st, 2nd, 3rd ... refill of some call; both an ordinary exception and KeyboardInterrupt"""
+    i = 0
+    for n in (1, 2):
+        for b in (3, 4, 5, 7):
+            for d in (1, 2):
+                sched = [[k] for k in range(1, 9)] + [[2, 3], [2, 6], [3, 4], [4, 9], [1, 5, 6]]
+                for ra in sched:
+                    i += 1
+                    yield {'dims': d, 'batch': b, 'calls': 6, 'kind': 'raising', 'n': n, 'form': 'list', 'raise_at': ra,
+                           'exc': 'KeyboardInterrupt' if i % 2 else 'SourceError'}
 
 
 def cfg_key(cfg):
@@ -153,6 +197,8 @@ def oracle(ck, cfg, out):
                 f'{delivered[j] if j < len(delivered) else None} (call {j // bsz}), the draws have '
                 f'{drawn[j] if j < len(drawn) else None} there')
         exp, act = [list(r) for r in drawn[max(0, j - 1):j + 3]], [list(r) for r in delivered[max(0, j - 1):j + 3]]
+        if cfg['kind'] == 'raising':
+            what += f' (the source raised {cfg.get("exc")} at attempts {cfg["raise_at"]}; calls {out.get("interrupted_calls")} were interrupted and the caller carried on)'
     if key is None:
         # rows intact: the coordinates of one delivered row decode to one (call, row) of the source
         for r in delivered:
@@ -413,6 +459,7 @@ def main():
     cases += explore(ck, torch, G, SpyLeaf, enumerate_varying(5 if th else 3, 6 if th else 5), dist)
     cases += explore(ck, torch, G, SpyLeaf, enumerate_persistent(), dist)
     explore_operands(ck, torch, G, SpyLeaf, enumerate_operands(), dist)
+    explore(ck, torch, G, SpyLeaf, enumerate_raising(), dist, coq=False)     # exceptions are outside the Coq model: oracle only
     cases += explore(ck, torch, G, SpyLeaf, (random_config(r, 240) for _ in range(2000 if th else 150)), dist)
     # long histories (up to 40 calls x batch 20): implementation oracle on all, Coq on a sample
     long_cfgs = [random_config(r, 800) for _ in range(8000 if th else 400)]
